@@ -24,7 +24,8 @@ import (
 type c09Msg struct {
 	kind string // b v f w r m s
 	body []byte
-	k    int // parts (v, w, m)
+	k    int    // parts (v, w, m)
+	via  string // ch (Channel.Write) | ctx (HandlerContext.Write of the last handler) | pl (Pipeline.FireChannelWrite)
 }
 
 func (m c09Msg) String() string { return fmt.Sprintf("mw:%s:%d:%d", m.kind, len(m.body), m.k) }
@@ -98,7 +99,19 @@ func (m c09Msg) value() netty.Message {
 	panic("kind")
 }
 
+// the application handler at the end of the pipeline: messages written through its context enter the
+// pipeline there (what a handler replying from HandleRead does)
+type c09App struct{}
+
+func (c09App) HandleRead(ctx netty.InboundContext, m netty.Message) { ctx.HandleRead(m) }
+
 func c09Pipeline(kind string) netty.Pipeline {
+	pl := c09Codecs(kind)
+	pl.AddLast(c09App{})
+	return pl
+}
+
+func c09Codecs(kind string) netty.Pipeline {
 	pl := netty.NewPipeline()
 	switch kind {
 	case "delim":
@@ -118,6 +131,19 @@ func c09Pipeline(kind string) netty.Pipeline {
 func genC09(rng *rand.Rand) *c09Scenario {
 	sc := &c09Scenario{sync: rng.Intn(2) == 0, qcap: []int{1, 2, 4, 8}[rng.Intn(4)], pipeline: []string{"plain", "plain", "delim", "delim", "lf", "varint", "varint+text", "packet"}[rng.Intn(8)]}
 	nt := 2 + rng.Intn(2)
+	if rng.Intn(10) == 0 {
+		// a backlog of large packets: two-part messages of 70000 bytes, more than 64 KiB queued behind a stalled sender
+		sc.sync, sc.qcap, sc.pipeline = false, []int{4, 8}[rng.Intn(2)], "plain"
+		for t := 0; t < nt; t++ {
+			body := []byte(fmt.Sprintf("<T%d.0:", t+1))
+			for len(body) < 69999 {
+				body = append(body, byte('a'+t))
+			}
+			body = append(body, '>')
+			sc.threads = append(sc.threads, []c09Msg{{kind: []string{"w", "w", "v"}[rng.Intn(3)], body: body, k: 2, via: "ch"}})
+		}
+		return sc
+	}
 	for t := 0; t < nt; t++ {
 		var ms []c09Msg
 		for i := 0; i < 1+rng.Intn(2); i++ {
@@ -145,7 +171,7 @@ func genC09(rng *rand.Rand) *c09Scenario {
 				body = append(body, byte('a'+t))
 			}
 			body = append(body, '>')
-			ms = append(ms, c09Msg{kind: kind, body: body, k: 2 + rng.Intn(2)})
+			ms = append(ms, c09Msg{kind: kind, body: body, k: 2 + rng.Intn(2), via: []string{"ch", "ch", "ctx", "pl"}[rng.Intn(4)]})
 		}
 		sc.threads = append(sc.threads, ms)
 	}
@@ -194,8 +220,16 @@ func runC09Scenario(sc *c09Scenario, strat rt.Strategy) (*rt.Controller, *mock.T
 							st = "panic"
 						}
 					}()
-					if err := ch.Write(m.value()); err != nil {
-						return "err"
+					switch m.via {
+					case "ctx":
+						idx := pl.LastIndexOf(func(h netty.Handler) bool { _, ok := h.(c09App); return ok })
+						pl.ContextAt(idx).Write(m.value())
+					case "pl":
+						pl.FireChannelWrite(m.value())
+					default:
+						if err := ch.Write(m.value()); err != nil {
+							return "err"
+						}
 					}
 					return "ok"
 				}()
